@@ -468,6 +468,23 @@ func (vc *VC) arith(op string, a, b Term, ti *typeInfo) Term {
 	case "%":
 		return Ite(App(SBool, ">=", a, IntLit(0)), App(SInt, "mod", a, b), App(SInt, "-", App(SInt, "mod", App(SInt, "-", a), b)))
 	case "&", "|", "^", "&^":
+		// constant operands fold
+		if av, ok := intLiteral(a); ok {
+			if bv, ok := intLiteral(b); ok && av.Sign() >= 0 && bv.Sign() >= 0 {
+				r := new(big.Int)
+				switch op {
+				case "&":
+					r.And(av, bv)
+				case "|":
+					r.Or(av, bv)
+				case "^":
+					r.Xor(av, bv)
+				case "&^":
+					r.AndNot(av, bv)
+				}
+				return Term{r.String(), SInt}
+			}
+		}
 		// bit operations are uninterpreted in int mode (sound: only functional consistency is known)
 		name := map[string]string{"&": "bitand_", "|": "bitor_", "^": "bitxor_", "&^": "bitandnot_"}[op]
 		vc.needBitFns = true
@@ -925,4 +942,30 @@ func (vc *VC) refOf(v TV) Term {
 	}
 	specFail("value has no reference identity")
 	return Term{}
+}
+
+// intLiteral recognises a non-negative or negated integer literal term.
+func intLiteral(t Term) (*big.Int, bool) {
+	s := t.S
+	neg := false
+	if strings.HasPrefix(s, "(- ") && strings.HasSuffix(s, ")") {
+		neg = true
+		s = s[3 : len(s)-1]
+	}
+	if s == "" {
+		return nil, false
+	}
+	for _, c := range s {
+		if c < '0' || c > '9' {
+			return nil, false
+		}
+	}
+	v, ok := new(big.Int).SetString(s, 10)
+	if !ok {
+		return nil, false
+	}
+	if neg {
+		v.Neg(v)
+	}
+	return v, true
 }
